@@ -15,6 +15,7 @@ if [ "$TOOL" = "sx" ]; then
   gcc -O1 -g -fPIC -c "$VERIF/src/sx/sched.c" -I"$VERIF/src/sx" -o "$D/sched.$$.o"
   EXTRA="$D/sched.$$.o -ldl"
 fi
-g++ $FLAGS -I"$VERIF/src" "$SRC" $EXTRA "$D/libcsd.a" -lpthread -o "$OUT.tmp.$$" && mv "$OUT.tmp.$$" "$OUT"
+g++ $FLAGS -I"$VERIF/src" "$SRC" $EXTRA "$D/libcsd.a" -lpthread -o "$OUT.tmp.$$" || { rm -f "$D/sched.$$.o"; exit 3; }
+mv "$OUT.tmp.$$" "$OUT"
 rm -f "$D/sched.$$.o"
 echo "$OUT"
